@@ -33,6 +33,15 @@ def seed():
         return 1
 
 
+def tscale(n):
+    """Thorough-tier workload size; VERIF_THOROUGH_SCALE (default 1) shrinks it to validate the plumbing of all flavors quickly."""
+    try:
+        f = float(os.environ.get("VERIF_THOROUGH_SCALE", "1"))
+    except ValueError:
+        f = 1.0
+    return max(1, int(n * f))
+
+
 def log(*a):
     print(*a, file=sys.stderr, flush=True)
 
